@@ -15,7 +15,10 @@ def contains_import(tree, module, name):
         if (
             isinstance(node, ast.ImportFrom)
             and node.module == module
-            and any(alias.name == name for alias in node.names)
+            and any(
+                alias.name == name and alias.asname in (None, name)
+                for alias in node.names
+            )
         ):
             return True
     return False
